@@ -30,8 +30,8 @@ Definition w_dir : task :=
 
 Definition w_init : state :=
   {| fs := [("src/a.txt", {| f_content := "A0"; f_mtime := 1 |});
-            ("src/sub/s.txt", {| f_content := "S0"; f_mtime := 2 |});
-            ("src/ex/e.txt", {| f_content := "E0"; f_mtime := 3 |})];
+            ("src/ex/e.txt", {| f_content := "E0"; f_mtime := 3 |});
+            ("src/sub/s.txt", {| f_content := "S0"; f_mtime := 2 |})];
      dirs := ["src"; "src/ex"; "src/sub"]; cks := []; tss := []; tsx := []; trace := [] |}.
 
 Definition w_obs (v : variant) (p : project) (h : list event) : list ostep :=
